@@ -34,6 +34,8 @@ def evaluate(t, env):
         if t[1] == "Option::None":
             return NONE
         return ("ctor", t[1], tuple((f, evaluate(v, env)) for f, v in t[2]))
+    if k == "list":
+        return ("tuple", tuple(evaluate(x, env) for x in t[1]))      # a tuple expression (the evaluator writes tuples as lists)
     if k == "closure":
         return ("closure", t[1], t[2], env)
     if k == "ctorfn":
